@@ -1559,7 +1559,7 @@ def atoms(t, acc=None):
         if base[0] == "p":
             acc.add(t)
             return acc
-    for x in t[1:]:
+    for x in (t[1:] if isinstance(t[0], str) else t):
         if isinstance(x, tuple):
             atoms(x, acc)
     return acc
